@@ -250,7 +250,10 @@ func (ex *Exec) checkFrameElem(st *State, p *PtrV, pos token.Pos, cond ...*Term)
 	if st.Fresh[p.Arr] {
 		return
 	}
-	class := "[]" + typeName(p.Elem)
+	class := p.Class // a callee's 'modifies s[*]' names the element class directly
+	if p.Elem != nil {
+		class = "[]" + typeName(p.Elem)
+	}
 	var alts []*Term
 	alts = append(alts, Lt(top.EntryFull.Frontier, p.Arr))
 	for _, m := range top.Mods {
@@ -380,7 +383,7 @@ func (ex *Exec) havocLvalue(st *State, fr *Frame, env *SpecEnv, m Clause, pos to
 					st.heapSet(class, nh)
 				}
 			}
-			ex.checkFrameElem(st, &PtrV{Root: RElem, Arr: loc.arr, Idx: loc.lo, Elem: nil}, pos)
+			ex.checkFrameElem(st, &PtrV{Root: RElem, Arr: loc.arr, Idx: loc.lo, Elem: nil, Class: loc.class}, pos)
 			continue
 		}
 		touched := false
